@@ -56,6 +56,12 @@ def strongly_convex(inst):
     return any(fr['k'] == 'L2sq' for fr in [inst['f'], inst['h']] + list(inst['gs']))
 
 
+def pclass(inst):
+    """Problem class of a non-smooth instance (family-level): without any strongly convex term the problem is a
+    saddle problem whose solvers rely on their extrapolation / relaxation steps."""
+    return 'strongly-convex' if strongly_convex(inst) else 'saddle-no-strong-convexity'
+
+
 def tight(M):
     """L^T L (or L L^T) is a multiple of the identity: condition number 1 (exact on integer matrices)."""
     M = np.asarray(M, dtype=float)
@@ -111,9 +117,11 @@ def smooth_run(d):
             S.landweber(op, x, op.range.element(np.array(d['b'], dtype=float)), d['niter'], omega=d['omega'],
                         callback=rec)
         elif kind == 'kaczmarz':
-            rows = [odl.MatrixOperator(A[i:i + 1].copy(), domain=op.domain) for i in range(A.shape[0])]
-            rhs = [r.range.element([d['b'][i]]) for i, r in enumerate(rows)]
-            S.kaczmarz(rows, x, rhs, d['niter'], omega=d['omegas'], callback=rec,
+            blocks = d.get('blocks') or [[i] for i in range(A.shape[0])]
+            rows = [odl.MatrixOperator(A[bl].copy(), domain=op.domain) for bl in blocks]
+            rhs = [r.range.element(np.array(d['b'])[bl]) for bl, r in zip(blocks, rows)]
+            np.random.seed(d.get('np_seed', 0))          # random=True draws its sweep orders from np.random
+            S.kaczmarz(rows, x, rhs, d['niter'], omega=d['omegas'], callback=rec, random=bool(d.get('random')),
                        callback_loop=d.get('loop', 'outer'))
         elif kind in ('sdbt',) + DRIFT_ONLY:
             obj = S.L2NormSquared(op.range).translated(op.range.element(np.array(d['b'], dtype=float))) * op
@@ -153,10 +161,23 @@ def smooth_desc(rnd, kind, cond):
     # by rounding noise (textbook CGLS in NumPy grows the residual in the same way) - outside "up to rounding"
     d.update(A=A.tolist(), x0=rnd.normal(size=n).tolist(), niter=n if kind == 'cgn' else 15)
     if kind == 'kaczmarz':
+        # >= 3 blocks (one or two rows each) of very different operator norm, a PER-OPERATOR relaxation
+        # omega_i = c_i / |A_i|^2 (admissible: 0 < c_i < 2), fixed or random sweep order, callback per sweep or per block
+        if m < 3:
+            A = np.vstack([A, rnd.normal(size=(3 - m, n))])
+            m = 3
+        blocks, i = [], 0
+        while i < m:
+            k = 2 if (m - i >= 4 and rnd.random() < 0.4) else 1
+            blocks.append(list(range(i, i + k)))
+            i += k
+        for bl in blocks:
+            A[bl] *= float(rnd.choice([1e-3, 0.1, 1.0, 1.0, 10.0, 1e3]))
         sol = rnd.normal(size=n)
-        d.update(sol=sol.tolist(), b=A.dot(sol).tolist(), niter=6,
-                 omegas=[float(rnd.choice([0.5, 1.0, 1.5])) / float(A[i].dot(A[i])) for i in range(m)],
-                 loop=str(rnd.choice(['outer', 'inner'])))
+        d.update(A=A.tolist(), sol=sol.tolist(), b=A.dot(sol).tolist(), niter=6, blocks=blocks,
+                 omegas=[float(rnd.choice([0.5, 1.0, 1.5])) / float(np.linalg.norm(A[bl], 2) ** 2) for bl in blocks],
+                 loop=str(rnd.choice(['outer', 'inner'])), random=bool(rnd.random() < 0.6),
+                 np_seed=int(rnd.integers(0, 2 ** 31 - 1)))
     else:
         d['b'] = rnd.normal(size=m).tolist()
         if kind == 'landweber':
@@ -361,9 +382,23 @@ def fixed_run(inst, real, xstar, ystar, nit=3, opts=None):
     """Start the real solver at a KKT pair the way the API allows; returns observed iterates."""
     i2 = dict(inst, solver=real)
     ys = SL.vec(ystar[0]) if real == 'pdhg' else None
-    r = SL.run_real(i2, 'rn', 'opt', [nit], x_start=SL.vec(xstar), y_start=ys, pass_state=(real == 'pdhg'),
-                    opts=opts)
+    conc, o2 = split_conc(opts)
+    r = SL.run_real(i2, conc, 'opt', [nit], x_start=SL.vec(xstar), y_start=ys, pass_state=(real == 'pdhg'),
+                    opts=o2)
     return r
+
+
+def split_conc(o):
+    """('rn' | 'block', remaining options): the pseudo-option conc='block' realises a single operator with >= 2 rows
+    as a BroadcastOperator into a product space (functionals on the range as SeparableSum)."""
+    o = dict(o or {})
+    conc = o.pop('conc', 'rn')
+    return conc, (o or None)
+
+
+def block_variant(inst, real):
+    i2 = dict(inst, solver=real)
+    return [{'conc': 'block'}] if 'block' in SL.applicable_concs(i2) else []
 
 
 def kkt_options(inst, real):
@@ -384,7 +419,9 @@ def kkt_options(inst, real):
 
 def opt_name(o):
     from .c11 import option_name
-    return option_name(o or {})
+    conc, o2 = split_conc(o)
+    nm = option_name(o2 or {})
+    return nm if conc == 'rn' else ('product-range' if nm == 'default' else 'product-range+' + nm)
 
 
 def replay_kkt(args):
@@ -401,7 +438,7 @@ def replay_kkt(args):
     r = SL.run_real(inst, 'rn', 'opt', [N], pass_state=False)
     out['counts'].append(([sol, inst['tag'], inst['tau'], inst['sig'], 'iterates'], True))
     if r['err']:
-        out['viol'].append((sig_of(sol, 'raised', functional=fk), dict(base, error=r['err'])))
+        out['viol'].append((sig_of(sol, 'raised', functional=fk, problem=pclass(inst)), dict(base, error=r['err'])))
         return out
     so = snapped_its(r['its'], rows, N)
     exp = {k: rows[k]['ref']['x'] for k in rows if k >= 1}
@@ -432,14 +469,16 @@ def replay_kkt(args):
             if wi < (1 if quick else 2):
                 variants += [{'scale': v} for v in ([SL.SCALES[(h + wi) % 3]] if quick else SL.SCALES)]
                 variants += kkt_options(inst, real)
+                if not quick or (h + wi) % 2 == 0:
+                    variants += block_variant(inst, real)
             for o in variants:
                 okw = {'option': opt_name(o)} if o else {}
                 fr = fixed_run(inst, real, xstar, ystar, nit=4 if real == 'pdhg' else 3, opts=o)
                 out['counts'].append(([real, inst['tag'], inst['tau'], inst['sig'], 'fixed', xstar, ystar, o], True))
-                sg = sig_of(real, 'fixed-point', functional=fk, **okw)
+                sg = sig_of(real, 'fixed-point', functional=fk, problem=pclass(inst), **okw)
                 detail = dict(base, real=real, xstar=xstar, ystar=ystar, opts=o)
                 if fr['err']:
-                    out['viol'].append((sig_of(real, 'raised', functional=fk, **okw), dict(detail, error=fr['err'])))
+                    out['viol'].append((sig_of(real, 'raised', functional=fk, problem=pclass(inst), **okw), dict(detail, error=fr['err'])))
                     continue
                 obs = [SL.snapvec(v, D) for v in fr['its']] + [SL.snapvec(fr['x'], D)]
                 if any(ob != xstar for ob in obs):
@@ -459,13 +498,16 @@ def replay_kkt(args):
                 if real == sol or not quick:
                     runs += [(200, {'scale': v}) for v in ([SL.SCALES[h % 3]] if quick else SL.SCALES)]
                 runs += [(200, o) for o in kkt_options(inst, real)]
+                if not quick or h % 2 == 1:
+                    runs += [(200, o) for o in block_variant(inst, real)]
                 for Nn, o in runs:
                     okw = {'option': opt_name(o)} if o else {}
-                    rr = SL.run_real(dict(inst, solver=real), 'rn', 'opt', [Nn], pass_state=False, opts=o)
+                    conc, o2 = split_conc(o)
+                    rr = SL.run_real(dict(inst, solver=real), conc, 'opt', [Nn], pass_state=False, opts=o2)
                     out['counts'].append(([real, inst['tag'], inst['tau'], inst['sig'], 'conv', Nn, o], True))
-                    sg = sig_of(real, 'convergence', functional=fk, **okw)
+                    sg = sig_of(real, 'convergence', functional=fk, problem=pclass(inst), **okw)
                     if rr['err']:
-                        out['viol'].append((sig_of(real, 'raised', functional=fk, **okw),
+                        out['viol'].append((sig_of(real, 'raised', functional=fk, problem=pclass(inst), **okw),
                                             dict(base, real=real, N=Nn, opts=o, error=rr['err'])))
                         continue
                     rN = SL.kkt_residual(inst, rr['x'])
@@ -481,100 +523,97 @@ def q2(fr):
     return SL.exact.to_q(Fraction(fr))
 
 
-def kkt_desc(rnd, solver):
-    """A random lattice instance with a KKT pair known by construction (TLC certifies it).  Returns
-    (inst, xstar, ystar).  f absorbs: its translation / kink is fitted to s = -grad h(x*) - L^T y*."""
+def kkt_desc(rnd, solver, nblocks=None):
+    """A random lattice instance with a KKT tuple known by construction (TLC certifies it).  Returns
+    (inst, xstar, ystar).  f absorbs: its translation / kink is fitted to s = -grad h(x*) - sum L_i^T y_i*.
+    douglas_rachford_pd / forward_backward_pd get 1-3 non-trivial operators with ranges of different sizes and
+    different sigma_i."""
     H = Fraction(1, 2)
-    n, m = rnd.randint(2, 3), rnd.randint(1, 3)
-    M = [[rnd.choice([-1, 0, 1, 1, 2]) for _ in range(n)] for _ in range(m)]
-    for r_ in M:
-        if not any(r_):
-            r_[rnd.randrange(n)] = 1
-    fro2 = sum(v * v for r_ in M for v in r_)
-    # dyadic admissible steps
+    n = rnd.randint(2, 3)
+    if nblocks is None:
+        nblocks = rnd.choice([1, 2, 2, 3]) if solver in ('dr', 'fb') else 1
+    sizes = rnd.sample([1, 2, 3], nblocks) if nblocks > 1 else [rnd.randint(1, 3)]
+    Ms = []
+    for m in sizes:
+        M = [[rnd.choice([-1, 0, 1, 1, 2]) for _ in range(n)] for _ in range(m)]
+        for r_ in M:
+            if not any(r_):
+                r_[rnd.randrange(n)] = 1
+        Ms.append(M)
+    fro2 = sum(v * v for M in Ms for r_ in M for v in r_)
+    # dyadic admissible steps (root-free certificates with Frobenius norms)
     e = 0
     while Fraction(1, 4 ** e) * fro2 >= 1:
         e += 1
     tau = Fraction(1, 2 ** (e + (1 if solver == 'fb' else 0)))
-    sig = Fraction(1, 2 ** e)
+    sigs = [Fraction(1, 2 ** e)]
     if solver == 'admm':
-        sig = Fraction(rnd.choice([1, 2]))
-        tau = sig / (2 ** (fro2.bit_length()))
+        sigs = [Fraction(rnd.choice([1, 2]))]
+        tau = sigs[0] / (2 ** (fro2.bit_length()))
     if solver == 'dr':
-        tau, sig = Fraction(1), Fraction(1, 2 ** (fro2.bit_length() - 1)) if fro2 > 1 else Fraction(1)
+        tau = Fraction(1)
+        s0 = Fraction(1, 2 ** (fro2.bit_length() - 1)) if fro2 > 1 else Fraction(1)
+        sigs = [s0 / rnd.choice([1, 2, 4]) if nblocks > 1 else s0 for _ in Ms]
+    if solver == 'fb':
+        sigs = [sigs[0] / rnd.choice([1, 2, 4]) if nblocks > 1 else sigs[0] for _ in Ms]
     if solver == 'pg':
         tau = Fraction(1, 2 ** (fro2.bit_length() + 1))
     xs = [Fraction(rnd.randint(-4, 4), 2) for _ in range(n)]
-    Lx = [sum(M[i][j] * xs[j] for j in range(n)) for i in range(m)]
     dual_free = solver in ('pdhg',)
-    gk = rnd.choice(['L1', 'L2sq']) if solver != 'pg' else 'L2sq'
-    if gk == 'L1':
-        c = Fraction(rnd.choice([1, 2]))
-        ys, t = [], []
-        for i in range(m):
-            mode = rnd.choice(['+', '-', 'in']) if dual_free else 'zero'
-            if mode == '+':
-                ys.append(c)
-                t.append(Lx[i] - rnd.randint(1, 2))
-            elif mode == '-':
-                ys.append(-c)
-                t.append(Lx[i] + rnd.randint(1, 2))
-            else:
-                ys.append(Fraction(0) if mode == 'zero' else rnd.choice([Fraction(0), c / 2, -c / 2]))
-                t.append(Lx[i])
-        g = {'k': 'L1', 'c': q2(c), 't': [q2(v) for v in t], 'lo': [0, 1], 'hi': [0, 1]}
-    else:
-        c = Fraction(1, 2) if solver == 'pg' else rnd.choice([Fraction(1, 2), Fraction(1, 4)])
-        ys = [Fraction(rnd.randint(-2, 2), 1) if (dual_free or solver == 'pg') else Fraction(0) for _ in range(m)]
-        t = [Lx[i] - ys[i] / (2 * c) for i in range(m)]
-        g = {'k': 'L2sq', 'c': q2(c), 't': [q2(v) for v in t], 'lo': [0, 1], 'hi': [0, 1]}
+
+    def fit_g(M, kind, c, ys):
+        """translation of g so that ys lies in dg(M x*)"""
+        Lx = [sum(M[i][j] * xs[j] for j in range(n)) for i in range(len(M))]
+        if kind == 'L1':
+            t = [Lx[i] - rnd.randint(1, 2) if ys[i] == c else Lx[i] + rnd.randint(1, 2) if ys[i] == -c else Lx[i]
+                 for i in range(len(M))]
+        else:
+            t = [Lx[i] - ys[i] / (2 * c) for i in range(len(M))]
+        return {'k': kind, 'c': q2(c), 't': [q2(v) for v in t], 'lo': [0, 1], 'hi': [0, 1]}
+    gk, gc, yss = [], [], []
+    for M in Ms:
+        m = len(M)
+        kind = rnd.choice(['L1', 'L2sq']) if solver != 'pg' else 'L2sq'
+        if kind == 'L1':
+            c = Fraction(rnd.choice([1, 2]))
+            ys = [rnd.choice([c, -c, Fraction(0), c / 2, -c / 2]) if dual_free else Fraction(0) for _ in range(m)]
+        else:
+            c = Fraction(1, 2) if solver == 'pg' else rnd.choice([Fraction(1, 2), Fraction(1, 4)])
+            ys = [Fraction(rnd.randint(-2, 2), 1) if (dual_free or solver == 'pg') else Fraction(0) for _ in range(m)]
+        gk.append(kind)
+        gc.append(c)
+        yss.append(ys)
     hfun = {'k': 'Zero', 'c': [1, 1], 't': [], 'lo': [0, 1], 'hi': [0, 1]}
     gradh = [Fraction(0)] * n
     if solver == 'fb':
         th = [Fraction(rnd.randint(-2, 2)) for _ in range(n)]
         hfun = {'k': 'L2sq', 'c': [1, 4], 't': [q2(v) for v in th], 'lo': [0, 1], 'hi': [0, 1]}
         gradh = [H * (xs[j] - th[j]) for j in range(n)]
-    s = [-gradh[j] - sum(M[i][j] * ys[i] for i in range(m)) for j in range(n)]      # must lie in df(x*)
-    fk = rnd.choice(['L1', 'L2sq', 'Box'])
+    s = [-gradh[j] - sum(M[i][j] * ys[i] for M, ys in zip(Ms, yss) for i in range(len(M))) for j in range(n)]
+    fk = rnd.choice(['L1', 'L2sq', 'Box'] if solver != 'fb' else ['L1', 'L2sq'])
     if fk == 'L2sq':
         cf = rnd.choice([Fraction(1, 2), Fraction(1)])
         f = {'k': 'L2sq', 'c': q2(cf), 't': [q2(xs[j] - s[j] / (2 * cf)) for j in range(n)], 'lo': [0, 1], 'hi': [0, 1]}
     elif fk == 'L1':
         cf = max([abs(v) for v in s] + [Fraction(1)]) + rnd.choice([0, 0, 1])
-        tf = []
-        for j in range(n):
-            if s[j] == cf:
-                tf.append(xs[j] - rnd.randint(1, 2))
-            elif s[j] == -cf:
-                tf.append(xs[j] + rnd.randint(1, 2))
-            else:
-                tf.append(xs[j])
+        tf = [xs[j] - rnd.randint(1, 2) if s[j] == cf else xs[j] + rnd.randint(1, 2) if s[j] == -cf else xs[j]
+              for j in range(n)]
         f = {'k': 'L1', 'c': q2(cf), 't': [q2(v) for v in tf], 'lo': [0, 1], 'hi': [0, 1]}
     else:
-        # box: x*_j sits at the bound that the sign of s_j demands
-        lo, hi = Fraction(rnd.randint(-3, 0)), None
+        # box: x*_j sits at the bound that the sign of s_j demands (h = 0 here, so s does not depend on x*)
+        lo = Fraction(rnd.randint(-3, 0))
         hi = lo + rnd.randint(1, 4)
-        xs = [lo if s[j] < 0 else hi if s[j] > 0 else xs[j] if lo <= xs[j] <= hi else lo + H for j in range(n)]
-        if any(lo + H > hi for _ in [0]):
-            xs = [min(v, hi) for v in xs]
-        # x* changed: refit g to the new L x* (duals and s are unchanged because h = 0 here)
-        if solver == 'fb':
-            return None
-        Lx = [sum(M[i][j] * xs[j] for j in range(n)) for i in range(m)]
-        if g['k'] == 'L1':
-            cg_ = Fraction(g['c'][0], g['c'][1])
-            t = [Lx[i] - rnd.randint(1, 2) if ys[i] == cg_ else Lx[i] + rnd.randint(1, 2) if ys[i] == -cg_ else Lx[i]
-                 for i in range(m)]
-        else:
-            cg_ = Fraction(g['c'][0], g['c'][1])
-            t = [Lx[i] - ys[i] / (2 * cg_) for i in range(m)]
-        g = dict(g, t=[q2(v) for v in t])
+        xs[:] = [lo if s[j] < 0 else hi if s[j] > 0 else xs[j] if lo <= xs[j] <= hi else min(lo + H, hi)
+                 for j in range(n)]
         f = {'k': 'Box', 'c': [1, 1], 't': [], 'lo': q2(lo), 'hi': q2(hi)}
-    inst = {'solver': solver, 'tag': 'rand/%s/%s' % (SL.fkind(f), SL.fkind(g)),
-            'Ls': [[[q2(v) for v in r_] for r_ in M]], 'f': f, 'gs': [g], 'h': hfun,
-            'tau': q2(tau), 'sig': [q2(sig)], 'th': [1, 1], 'x0': [q2(v + rnd.randint(2, 4)) for v in xs],
-            'y0': [], 'b': [], 'sol': [], 'lam': [0, 1], 'N': 3}
-    return inst, [q2(v) for v in xs], [[q2(v) for v in ys]]
+    gs = [fit_g(M, k_, c_, ys) for M, k_, c_, ys in zip(Ms, gk, gc, yss)]      # (after x* is final)
+    inst = {'solver': solver, 'tag': 'rand%s/%s/%s' % ('' if nblocks == 1 else str(nblocks) + 'op', SL.fkind(f),
+                                                      '+'.join(SL.fkind(g) for g in gs)),
+            'Ls': [[[q2(v) for v in r_] for r_ in M] for M in Ms], 'f': f, 'gs': gs, 'h': hfun,
+            'tau': q2(tau), 'sig': [q2(v) for v in sigs], 'th': [1, 1],
+            'x0': [q2(v + rnd.randint(2, 4)) for v in xs],
+            'y0': [], 'b': [], 'sol': [], 'lam': [0, 1], 'N': 3, 'pw': 1}
+    return inst, [q2(v) for v in xs], [[q2(v) for v in ys] for ys in yss]
 
 
 def kkt_case(args):
@@ -597,40 +636,42 @@ def kkt_case(args):
     out['key'] = [solver, inst['tag'], seed]
     for real in reals:
         # a keyword option / dyadic scaling drawn per case (the plain call is the most frequent)
-        o = rnd.choice([None, None, {'scale': rnd.choice(SL.SCALES)}] + kkt_options(inst, real))
+        o = rnd.choice([None, None, {'scale': rnd.choice(SL.SCALES)}] + kkt_options(inst, real)
+                       + block_variant(inst, real))
         okw = {'option': opt_name(o)} if o else {}
         fr = fixed_run(inst, real, xstar, ystar, nit=4 if real == 'pdhg' else 3, opts=o)
         detail = {'inst': inst, 'conc': 'rn', 'stage': 'relational', 'real': real, 'xstar': xstar, 'ystar': ystar,
                   'opts': o}
         if fr['err']:
-            out['viol'].append((sig_of(real, 'raised', functional=fk, **okw), dict(detail, error=fr['err'])))
+            out['viol'].append((sig_of(real, 'raised', functional=fk, problem=pclass(inst), **okw), dict(detail, error=fr['err'])))
             continue
         obs = [SL.snapvec(v, D) for v in fr['its']] + [SL.snapvec(fr['x'], D)]
         out['events'].append({'kind': 'fixed', 'inst': inst, 'xstar': xstar, 'ystar': ystar, 'obs': obs,
                               'nit': len(obs),
-                              'meta': dict(detail, sig=sig_of(real, 'fixed-point', functional=fk, **okw), catalogue=False,
+                              'meta': dict(detail, sig=sig_of(real, 'fixed-point', functional=fk, problem=pclass(inst), **okw), catalogue=False,
                                            observed=[v.tolist() for v in fr['its']])})
         # convergence from a distant start: a solution exists by construction; strongly convex instances only
         if strongly_convex(inst):
             r0 = SL.kkt_residual(inst, SL.vec(inst['x0']))
-            rr = SL.run_real(dict(inst, solver=real), 'rn', 'opt', [200], pass_state=False, opts=o)
+            conc, o2 = split_conc(o)
+            rr = SL.run_real(dict(inst, solver=real), conc, 'opt', [200], pass_state=False, opts=o2)
             if r0 >= MIN_KKT0 and not rr['err']:
                 rN = SL.kkt_residual(inst, rr['x'])
                 a, b = SL.exact.quantise_pair(r0, rN, bits=20)
                 out['events'].append({'kind': 'conv', 'solver': real, 'r0': a, 'rN': b,
                                       'meta': dict(detail, N=200, kkt0=r0, kktN=rN,
-                                                   sig=sig_of(real, 'convergence', functional=fk, **okw))})
+                                                   sig=sig_of(real, 'convergence', functional=fk, problem=pclass(inst), **okw))})
             # the solver's own default step-size rule (pdhg_stepsize / douglas_rachford_pd_stepsize)
             if real in ('pdhg', 'dr') and r0 >= MIN_KKT0:
                 rd = SL.run_real(inst, 'rn', 'opt', [200], pass_state=False, default_steps=True)
                 if rd['err']:
-                    out['viol'].append((sig_of(real, 'raised', functional=fk, steps='default'), dict(detail, error=rd['err'])))
+                    out['viol'].append((sig_of(real, 'raised', functional=fk, problem=pclass(inst), steps='default'), dict(detail, error=rd['err'])))
                 else:
                     rN = SL.kkt_residual(inst, rd['x'])
                     a, b = SL.exact.quantise_pair(r0, rN, bits=20)
                     out['events'].append({'kind': 'conv', 'solver': real, 'r0': a, 'rN': b,
                                           'meta': dict(detail, N=200, kkt0=r0, kktN=rN, default_steps=True, opts=None,
-                                                       sig=sig_of(real, 'convergence', functional=fk, steps='default'))})
+                                                       sig=sig_of(real, 'convergence', functional=fk, problem=pclass(inst), steps='default'))})
     return out
 
 
@@ -750,7 +791,7 @@ def run(ctx):
         meta = ev['meta']
         for cl in clauses:
             if cl.startswith('harness-'):
-                if cl == 'harness-not-api-fixed' and not meta.get('catalogue'):
+                if cl in ('harness-not-api-fixed', 'harness-too-fine') and not meta.get('catalogue'):
                     skipped[0] += 1       # TLC: the constructed pair needs internal duals the API cannot set
                     continue
                 raise MachineryError('trace event rejected as ill-formed by TLC: %s %s' % (cl, dumps(meta)[:300]))
@@ -816,8 +857,9 @@ def replay(body):
         bad = bool(fr['err']) or any(not np.allclose(v, xs, rtol=0, atol=2.0 ** -21) for v in fr['its'] + [fr['x']])
     elif clause == 'convergence':
         r0 = SL.kkt_residual(inst, SL.vec(inst['x0']))
-        rr = SL.run_real(dict(inst, solver=d['real']), 'rn', 'opt', [d['N']], pass_state=False,
-                         default_steps=bool(d.get('default_steps')), opts=d.get('opts'))
+        conc, o2 = split_conc(d.get('opts'))
+        rr = SL.run_real(dict(inst, solver=d['real']), conc, 'opt', [d['N']], pass_state=False,
+                         default_steps=bool(d.get('default_steps')), opts=o2)
         rN = SL.kkt_residual(inst, rr['x']) if not rr['err'] else float('inf')
         print('kkt_0', r0, 'kkt_N', rN, 'N', d['N'], rr['err'])
         bad = 10 * rN > r0 * (1 + 1e-4)
